@@ -141,7 +141,7 @@ def gen_C14(rng, tier):
     # rounding function
     vals = set(range(0, 70)) | {2 ** k + e for k in range(3, 33) for e in (-9, -8, -7, -1, 0, 1, 7, 8)} \
         | {2 ** 64 - k for k in range(1, 18)} | {2 ** 63, 2 ** 32 - 1, 2 ** 32 - 8, 2 ** 32 - 7}
-    n_rand = 20000 if tier == "thorough" else 1500
+    n_rand = 100000 if tier == "thorough" else 1500
     for _ in range(n_rand):
         vals.add(rng.getrandbits(rng.choice([8, 16, 31, 32, 32, 32, 48, 64])))
     for v in sorted(vals):
@@ -280,7 +280,7 @@ def gen_C02(rng, tier):
             count(dist["last8"], name)
     # realistic regions (0..8 tags, ending in the end tag) and one mutation of each: the accepting side of the "iff"
     dist["realistic"] = {}
-    for _ in range(2000 if tier == "thorough" else 250):
+    for _ in range(10000 if tier == "thorough" else 250):
         tags = []
         for _ in range(rng.randrange(0, 9)):
             typ = rng.choice([1, 2, 3, 4, 6, 9, 16, 21, 22, 99, 0xFFFFFFFF])
@@ -365,7 +365,7 @@ def gen_C03(rng, tier):
             cases.append("mbiwalk " + hx(build(sq, R)))
             dist["regions_exhaustive"] += 1
     # random longer regions, mostly well-formed
-    n_rand = 3000 if tier == "thorough" else 300
+    n_rand = 15000 if tier == "thorough" else 300
     pool = []
     for _ in range(n_rand):
         tags = []
@@ -391,7 +391,7 @@ def gen_C03(rng, tier):
         cases.append("mbiwalk " + hx(b))
         dist["regions_random"] += 1
     # iterator histories
-    n_hist = 1500 if tier == "thorough" else 200
+    n_hist = 6000 if tier == "thorough" else 200
     for _ in range(n_hist):
         b = rng.choice(pool)
         ops = ["[ 0 ]"]
@@ -450,7 +450,7 @@ def gen_C10(rng, tier):
                     count(dist["cksum"], ck)
     # realistic headers (0..10 tags of the 11 kinds) and one mutation of each: the accepting side of the "iff"
     dist["realistic"] = {}
-    for _ in range(2000 if tier == "thorough" else 250):
+    for _ in range(10000 if tier == "thorough" else 250):
         tags = []
         while len(tags) < rng.randrange(0, 11):
             t = rand_htag(rng, malformed=0)
@@ -496,7 +496,7 @@ def gen_C10(rng, tier):
             for l in vals:
                 cases.append("cksum %d %d %d" % (m, a, l))
                 dist["cksum_triples"] += 1
-    for _ in range(20000 if tier == "thorough" else 1500):
+    for _ in range(100000 if tier == "thorough" else 1500):
         m = rng.choice([E.HDR_MAGIC, rng.getrandbits(32)])
         cases.append("cksum %d %d %d" % (m, rng.choice([0, 4]), rng.getrandbits(rng.choice([8, 16, 32, 32]))))
         dist["cksum_triples"] += 1
@@ -789,7 +789,7 @@ def gen_C01(rng, tier):
         if int.from_bytes(r[:4], "little") <= len(r):
             cases.append(mbi_case(r))
             count(dist, "hand_written")
-    n = 4000 if tier == "thorough" else 350
+    n = 16000 if tier == "thorough" else 350
     regions = [dirty_padding(r, rng) for r in gen_mbi_regions(rng, n, dist)]
     # indexed framebuffer: every buffer length x colour count around it (the palette must fit behind its 2-byte count)
     for L in range(0, 26):
@@ -923,7 +923,7 @@ def gen_C04(rng, tier):
     dist = {}
     cases = []
     g = ConformantGen(rng.getrandbits(32))
-    n = 3000 if tier == "thorough" else 300
+    n = 12000 if tier == "thorough" else 300
     for _ in range(n):
         r = g.r
         x = r.random()
@@ -1157,7 +1157,7 @@ def gen_C19(rng, tier):
                          (64, 0x04000000), (0x10000, 0xFFFF), (1, 0xFFFFFFFF), (0, 0xFFFFFFFF), (40, 0), (64, 1)):
             cases.append(mbi_case(E.mbi([E.t_elf(n, es, sh, bytes(64 * max(n, 1)))])))
             count(dist, "overflowing_products")
-    cases += gen_elfname(rng, 400 if tier == "thorough" else 60, dist)
+    cases += gen_elfname(rng, 3000 if tier == "thorough" else 60, dist)
     return cases, dict(
         rule="elfname: 1..6 entries of size 40/64, the string table (1..6 names incl. empty, multi-byte and invalid UTF-8, "
              "6% without a final NUL) in an external buffer at a fixed 32-bit address in front of a guard page; every entry but "
@@ -1298,7 +1298,7 @@ def gen_hdr_regions(rng, n, dist, malformed=0.15):
 
 def gen_C11(rng, tier):
     dist = {}
-    cases = ["hdr " + hx(h) for h in gen_hdr_regions(rng, 3000 if tier == "thorough" else 400, dist, malformed=0.03)]
+    cases = ["hdr " + hx(h) for h in gen_hdr_regions(rng, 12000 if tier == "thorough" else 400, dist, malformed=0.03)]
     for n in range(0, 25):
         reqs = b"".join(E.u32(rng.getrandbits(32) if rng.random() < 0.5 else rng.randrange(0, 24)) for _ in range(n))
         cases.append("hdr " + hx(E.header([E.htag(3, 0, E.u32(7)), E.htag(1, rng.randrange(2), reqs), E.htag(1, 0, E.u32(99))])))
@@ -1330,7 +1330,7 @@ def gen_C11(rng, tier):
 
 def gen_C09(rng, tier):
     dist = {}
-    cases = ["hdr " + hx(h) for h in gen_hdr_regions(rng, 4000 if tier == "thorough" else 500, dist, malformed=0.3)]
+    cases = ["hdr " + hx(h) for h in gen_hdr_regions(rng, 16000 if tier == "thorough" else 500, dist, malformed=0.3)]
     # every tag size 0..40 and beyond the region for every kind
     for typ in range(0, 11):
         for s in list(range(0, 41)) + [48, 64, 0xFFFFFFF8, 0xFFFFFFFF]:
@@ -1379,7 +1379,7 @@ DOMAINS_READY.add("ctor")
 def _builder_gen(names, rule):
     def gen(rng, tier):
         g = TB.Gen(rng.getrandbits(32))
-        k = 4 if tier == "thorough" else 1
+        k = 12 if tier == "thorough" else 1
         cases = []
         dist = {}
         for n in names:
